@@ -116,4 +116,84 @@ theorem euler_step (ts : List Tri) (b : Bd) (x y z : Nat) (h : BdInv b (segsAll 
     simp [A0, A1, A2, hvx, hvy, hvz, hs0, hs1, hs2, List.eraseDups_cons, d01, d12, d20, d01.symm, d12.symm, d20.symm,
       hxy, hyz, hzx, hyx, hzy, hxz] at hshare ⊢ <;> omega
 
+/-! ## The boundary stays a disjoint union of simple closed curves (no pinched vertex) -/
+
+/-- Number of endpoints of `s` equal to `v`. -/
+def dl (s : Edge) (v : Nat) : Nat := (if s.1 = v then 1 else 0) + (if s.2 = v then 1 else 0)
+
+theorem dl_useg (a b v : Nat) : dl (useg a b) v = (if a = v then 1 else 0) + (if b = v then 1 else 0) := by
+  unfold dl useg; split <;> simp <;> omega
+
+theorem toggle_mem_of_ne (b : Bd) {e s : Edge} (h : e ≠ s) : e ∈ (b.toggle s).segs ↔ e ∈ b.segs := by
+  unfold Bd.toggle
+  split
+  · exact List.mem_erase_of_ne h
+  · simp [h]
+
+theorem toggle_refcount {b : Bd} {l : List Edge} (h : BdInv b l) (s : Edge) (v : Nat) :
+    (s ∈ b.segs → (b.toggle s).refcount v + dl s v = b.refcount v) ∧
+    (s ∉ b.segs → (b.toggle s).refcount v = b.refcount v + dl s v) := by
+  constructor
+  · intro hs
+    have hinv := toggle_inv h s
+    have hc : b.segs.contains s = true := by simpa using hs
+    have h1 : (ends b.segs).Perm (s.1 :: s.2 :: ends (b.segs.erase s)) := by
+      have := (List.perm_cons_erase hs).flatMap_right (fun s : Edge => [s.1, s.2])
+      simpa [ends, List.flatMap_cons] using this
+    have e1 := (h.vperm.trans h1).count_eq v
+    have e2 := hinv.vperm.count_eq v
+    have e3 : (b.toggle s).segs = b.segs.erase s := by simp [Bd.toggle, hs]
+    rw [e3] at e2
+    simp only [List.count_cons, beq_iff_eq] at e1
+    unfold Bd.refcount dl
+    omega
+  · intro hs
+    have hc : b.segs.contains s = false := by simpa using hs
+    unfold Bd.refcount dl Bd.toggle
+    rw [hc]
+    simp only [Bool.false_eq_true, if_false, List.count_cons, beq_iff_eq]
+    omega
+
+/-- **No pinch is ever created.**  If every vertex has reference count 0 or 2 (the tracked
+boundary is a disjoint union of simple closed curves) and the new non-degenerate triangle passes
+the `wouldDivideBoundary` test, the same holds after `addTriangle`'s bookkeeping. -/
+theorem refcount_step (b : Bd) (l : List Edge) (x y z : Nat) (h : BdInv b l)
+    (hxy : x ≠ y) (hyz : y ≠ z) (hzx : z ≠ x)
+    (hreg : ∀ v, b.refcount v = 0 ∨ b.refcount v = 2) (hwd : wouldDivide b (x, y, z) = false) :
+    ∀ v, (b.addTri (x, y, z)).refcount v = 0 ∨ (b.addTri (x, y, z)).refcount v = 2 := by
+  intro v
+  have d01 : useg x y ≠ useg y z := by rw [Ne, useg_eq_iff]; omega
+  have d12 : useg y z ≠ useg z x := by rw [Ne, useg_eq_iff]; omega
+  have d20 : useg z x ≠ useg x y := by rw [Ne, useg_eq_iff]; omega
+  have h1 := toggle_inv h (useg x y)
+  have h2 := toggle_inv h1 (useg y z)
+  obtain ⟨r0a, r0b⟩ := toggle_refcount h (useg x y) v
+  obtain ⟨r1a, r1b⟩ := toggle_refcount h1 (useg y z) v
+  obtain ⟨r2a, r2b⟩ := toggle_refcount h2 (useg z x) v
+  rw [toggle_mem_of_ne b d01.symm] at r1a r1b
+  rw [toggle_mem_of_ne _ d12.symm, toggle_mem_of_ne b d20] at r2a r2b
+  rw [dl_useg] at r0a r0b r1a r1b r2a r2b
+  have hwd' := hwd
+  simp only [wouldDivide, onBd, List.contains_eq_mem, Bool.or_eq_false_iff, Bool.and_eq_false_iff,
+    decide_eq_false_iff_not, Bool.not_eq_false', Bool.or_eq_true, decide_eq_true_eq, Nat.not_lt,
+    Nat.le_zero] at hwd'
+  obtain ⟨⟨hwx, hwy⟩, hwz⟩ := hwd'
+  have e : (b.addTri (x, y, z)) = ((b.toggle (useg x y)).toggle (useg y z)).toggle (useg z x) := by
+    simp [Bd.addTri, triSegs]
+  rw [e]
+  have px : useg x y ∈ b.segs → 0 < b.refcount x ∧ 0 < b.refcount y := fun hh => refcount_pos_of_bd h hh
+  have py : useg y z ∈ b.segs → 0 < b.refcount y ∧ 0 < b.refcount z := fun hh => refcount_pos_of_bd h hh
+  have pz : useg z x ∈ b.segs → 0 < b.refcount z ∧ 0 < b.refcount x := fun hh => refcount_pos_of_bd h hh
+  have gx := hreg x
+  have gy := hreg y
+  have gz := hreg z
+  have gv := hreg v
+  by_cases A0 : useg x y ∈ b.segs <;> by_cases A1 : useg y z ∈ b.segs <;> by_cases A2 : useg z x ∈ b.segs <;>
+    simp only [A0, A1, A2, true_implies, not_true_eq_false, false_implies, not_false_eq_true, or_true, true_or,
+      or_false, false_or] at r0a r0b r1a r1b r2a r2b px py pz hwx hwy hwz <;>
+    by_cases vx : x = v <;> by_cases vy : y = v <;> by_cases vz : z = v <;>
+    simp only [if_true, if_false, vx, vy, vz, eq_self_iff_true] at r0a r0b r1a r1b r2a r2b <;>
+    (try subst vx) <;> (try subst vy) <;> (try subst vz) <;>
+    omega
+
 end M3d.Param
